@@ -259,6 +259,12 @@ def Uniform.getValue (cv : Nat → K) (u : Uniform K) : K × Uniform K :=
   let (raw, g) := u.rng.nextRaw
   (uniformFormula u.min u.range (cv (res53Num raw)), { u with rng := g })
 
+/-- `Random::Uniform::getIntValue()`: `(int) std::floor(getImpl().getValue())`; `floorI` is `floor` followed by the
+conversion to `int` (exact for |value| < 2³¹) -/
+def Uniform.getIntValue (cv : Nat → K) (floorI : K → Int) (u : Uniform K) : Int × Uniform K :=
+  let (v, u') := u.getValue cv
+  (floorI v, u')
+
 /-- `GaussianImpl` -/
 structure Gaussian (K : Type) where
   rng : RandomImpl
